@@ -78,6 +78,12 @@ var props = map[string]propCfg{
 		Quick:    tierCfg{8, 20},
 		Thorough: tierCfg{16, 600},
 	},
+	"C12": {
+		Harness:  "./harness/c12",
+		Specs:    cacheSpecs(),
+		Quick:    tierCfg{8, 20},
+		Thorough: tierCfg{16, 600},
+	},
 	"C13": {
 		Harness:  "./harness/c13",
 		Specs:    cacheSpecs(),
